@@ -33,6 +33,9 @@ func lowerName(name string) (string, error) {
 }
 
 func capitalizeName(name string) string {
+	if name == "" {
+		return name
+	}
 	if name[0] >= 'A' && name[0] <= 'Z' {
 		return name
 	}
